@@ -11,7 +11,8 @@ random bodies after valid prefixes up to 1500 bytes, odd source addresses; (iii)
 fuzzing of the same entry point. Oracle:
   N1 notify_listeners / datagram_received returns normally;
   N2 the catch-all listener and every listener registered for that prefix received the datagram exactly once;
-  N3 a message handler of overlay X runs only if the first 22 bytes are X's prefix.
+  N3 a message handler of overlay X runs only if the first 22 bytes are X's prefix (also when the datagram is handed
+     to X.on_packet itself: every captured message kind with one prefix byte altered).
 
 Decode level (pv.c03_decode): every Serializable class / packer on truncated and length-corrupted buffers, judged
 against the independent structural walker of pv.refcodec (D1 end offset, D2 truncation must be rejected), and
@@ -210,6 +211,27 @@ class Mux:
         return bool(expected)
 
 
+def judge_direct(m: "Mux", idx: int, src: tuple, data: bytes, case: dict) -> None:
+    """
+    The datagram is handed to listener ``idx`` itself (``EndpointListener.on_packet``, the interface every endpoint -
+    shipped or third-party - and the broadcast bootstrapper call): its handlers run only for its own prefix.
+    """
+    tr = m.trace
+    tr["handlers"].clear()
+    ov = m.overlays[idx]
+    try:
+        ov.on_packet((m._addr(src), data))
+    except Exception as e:  # noqa: BLE001
+        raise Violation("N1", f"{type(e).__name__}@direct:{type(ov).__name__}",
+                        f"{type(e).__name__}: {e} left {type(ov).__name__}.on_packet for a {len(data)}-byte datagram "
+                        f"{data[:30].hex()}..", case) from None
+    for ov2, head in tr["handlers"]:
+        if head != ov2.get_prefix():
+            raise Violation("N3", f"handler:{type(ov2).__name__}:direct",
+                            f"a message handler of {type(ov2).__name__} ran for a datagram handed to its on_packet whose "
+                            f"first 22 bytes {head.hex()} are not its prefix {ov2.get_prefix().hex()}", case)
+
+
 def collect_corpus() -> list[bytes]:
     out = []
     for name in capture.CORPUS_SCENARIOS:
@@ -287,6 +309,32 @@ def _node_shard(ctx: Ctx, shard: int, nshards: int, thorough: bool) -> None:
                 for ln in range(22, min(len(d), 32)):
                     feed(d[:ln], "truncation")
                 feed(d, "captured")
+            # handed to the overlay's own on_packet: every captured message kind of each overlay, with one prefix byte
+            # altered (another protocol version, a neighbouring service id, ...)
+            per: dict = {}
+            for d in corpus:
+                per.setdefault((d[:22], d[22] if len(d) > 22 else -1), d)
+            for mi, m in enumerate(muxes[:1]):
+                for idx, ov in enumerate(m.overlays):
+                    if not hasattr(ov, "get_prefix") or not hasattr(ov, "decode_map"):
+                        continue
+                    own = ov.get_prefix()
+                    for (p, mid), d in sorted(per.items()):
+                        if p != own:
+                            continue
+                        for pos in range(22):
+                            for mask in ((1, 3, 0x80) if pos < 2 else (1,)):
+                                k += 1
+                                if k % nshards != shard:
+                                    continue
+                                alt = bytearray(d)
+                                alt[pos] ^= mask
+                                case = {"node": m.kind, "src": list(SOURCES[0]), "data": bytes(alt), "direct": idx}
+                                try:
+                                    judge_direct(m, idx, SOURCES[0], bytes(alt), case)
+                                except Violation as v:
+                                    ctx.violation(v)
+                                ctx.case(bytes(alt), True, cls="direct_foreign_prefix")
             ctx.note("corpus_datagrams", len(corpus) if shard == 0 else 0)
         finally:
             for m in muxes:
@@ -542,7 +590,10 @@ def replay(ctx: Ctx, case: dict) -> None:
                 prefixes = sorted(m.prefixes)
                 sel = raw[0] if raw else 255
                 data = (prefixes[sel % len(prefixes)] if sel < 200 else b"") + raw[1:]
-            m.judge(tuple(case["src"]), data, case)
+            if "direct" in case:
+                judge_direct(m, case["direct"], tuple(case["src"]), data, case)
+            else:
+                m.judge(tuple(case["src"]), data, case)
         finally:
             for ov in m.overlays:
                 try:
